@@ -64,7 +64,14 @@ C10Exp(e) ==
               IN [f \in Forms(e) |->
                     IF ~rok THEN OPanic
                     ELSE CASE f = "parse_bytes" -> IF utf /\ res.k = "ok" THEN OSome(T, Dec(T, res.v)) ELSE ONone
-                           [] f \in {"from_str_radix", "from_str", "str_parse"} -> res
+                           [] f = "from_str_radix" -> res
+                           \* FromStr / str::parse: within the same bounds; when the drivers run on behalf of the
+                           \* C17 check, they must also return exactly what from_str_radix(_, 10) returned (C17:
+                           \* the trait form computes the same value as the inherent method), which matters where
+                           \* C10 leaves the error kind open
+                           [] f \in {"from_str", "str_parse"} ->
+                                IF e.chk = "C17" /\ "from_str_radix" \in Forms(e) /\ Match(e.fo["from_str_radix"], res)
+                                THEN e.fo["from_str_radix"] ELSE res
                            [] f = "parse_str_radix" -> IF res.k = "ok" THEN OVal(T, Dec(T, res.v)) ELSE OPanic]
          [] e.op = "from_radix" ->
               LET ds == a[1].v          \* most significant first
